@@ -221,7 +221,7 @@ def pdf_lines(c):
 
 def pdf_check(ctx, c, outs):
     pdf, ISP, SP, _vector2xy, sym, s2, SR, V = _imp()
-    v = V(np.array(c["vs"], float).reshape(-1, 3))
+    v = V(common.relayout(np.array(c["vs"], float).reshape(-1, 3), c["vs"]))
     w = np.array(c["w"], float)
     res = []
     for mrd, o in ((False, outs[0]), (True, outs[1])):
